@@ -1,0 +1,13 @@
+//go:build verif
+
+package diexport
+
+import (
+	"github.com/alpacahq/marketstore/v4/internal/di"
+	"github.com/alpacahq/marketstore/v4/utils"
+)
+
+// NewContainer returns the server's dependency-injection container.
+func NewContainer(cfg *utils.MktsConfig) *di.Container {
+	return di.NewContainer(cfg)
+}
